@@ -139,6 +139,7 @@ def cases(draw, only=None, param=None):
         c['n'] = draw(st.integers(0, n - 1))
     elif which in ('or_move_to_front', 'and_move_to_front'):
         c['pos'] = sorted(draw(st.sets(st.integers(0, n - 1), max_size=n)))
+        c['warm'] = draw(st.booleans())
     elif which == 'reduce_n':
         c['n'] = draw(st.integers(0, n - 1))
     elif which == 'merge_clauses':
@@ -219,6 +220,10 @@ def body(c, stats: Stats):
             exp = R.I(foldr(R.AND, eterms), eterms[c['n']])
         elif which in ('or_move_to_front', 'and_move_to_front'):
             op = R.OR if which.startswith('or') else R.AND
+            if c.get('warm'):
+                # history: the sibling entry point was used first on the same library object with the same arguments
+                sibling = 'and_move_to_front' if which.startswith('or') else 'or_move_to_front'
+                getattr(taut, sibling)(list(c['pos']), terms)
             th = getattr(taut, which)(list(c['pos']), terms)
             moved = [eterms[i] for i in c['pos']] + [t for i, t in enumerate(eterms) if i not in c['pos']]
             exp = R.EQUIV(foldr(op, eterms), foldr(op, moved))
